@@ -11,7 +11,9 @@ def sh(cmd, **kw):
 def main():
     prop, n = sys.argv[1], sys.argv[2]
     others = sys.argv[3:]
-    wt = Path(f"/tmp/seed/{prop}")
+    base = os.environ.get("SEED_DIR", "/tmp/seed")       # round 2: SEED_DIR=/tmp/seed2 SEED_OFFSET=2 (ids Cxx_3, Cxx_4)
+    off = int(os.environ.get("SEED_OFFSET", "0"))
+    wt = Path(f"{base}/{prop}")
     patch = wt / f"patch_{n}.diff"
     conf = json.loads((wt / f"confirm_{n}.json").read_text()) if (wt / f"confirm_{n}.json").exists() else {}
     st = sh(["git", "-C", "/repo", "status", "--porcelain"]).stdout.strip()
@@ -41,7 +43,7 @@ def main():
         sh(["git", "-C", "/repo", "checkout", "--", "."])
         sh(["git", "-C", "/repo", "reset", "-q"])
         sh(["git", "-C", "/repo", "checkout", "--", "."])
-    sid = f"{prop}_{n}"
+    sid = f"{prop}_{int(n) + off}"
     out = V / "seeded" / sid
     out.mkdir(parents=True, exist_ok=True)
     shutil.copy(patch, out / "patch.diff")
@@ -52,9 +54,10 @@ def main():
     mp = out / "meta.json"
     if mp.exists():
         old = json.loads(mp.read_text())
-        for k in ("needs", "notes"):
+        for k in ("needs", "notes", "change", "first_evaluation", "strengthening", "first_checks"):
             if k in old:
                 meta[k] = old[k]
+    meta.setdefault("first_checks", {p: {"rc": r["rc"], "violations": r["violations"]} for p, r in results.items()})
     mp.write_text(json.dumps(meta, indent=1))
     print(sid, "applied" if applied else "DID NOT APPLY", {p: (r["rc"], r["violations"]) for p, r in results.items()})
     for p, r in results.items():
